@@ -456,3 +456,11 @@ def need(fn: Fn, items: list, what: str):
     if not items:
         raise AnalysisError(f"{fn.ref}: {what} not found")
     return items
+
+
+def natom(text: str, pol: bool = True) -> tuple[str, bool]:
+    """normalised atom of a test written as source text (same canonical form as guard atoms)"""
+    r = flatten_cond(ast.parse(text, mode="eval").body, pol)
+    if len(r) != 1:
+        raise ValueError(f"not an atom: {text}")
+    return r[0]
